@@ -267,3 +267,6 @@ package netconf
 //@   at call dyn#1 assert #the-first-request-id-is-101-until-an-option-says-otherwise rangeindex == 0 ==> d.messageID == 101 && d.messages != nil && d.subscriptions != nil
 //@   ensures #nil-on-error result.1 != nil ==> result.0 == nil
 //@   at return assert #the-prompt-pattern-starts-as-the-1.0-delimiter result.1 == nil ==> result.0 == d && d.Channel.PromptPattern == netconfPatternsInstance.v1Dot0Delim && optlog == optBaseN ++ applied(opts, box("*netconf.Driver", d), len(opts))
+
+// ---- C08: no method returns holding the reply-store lock
+//@ released [C08] Driver.messagesLock
